@@ -47,6 +47,7 @@ type World struct {
 	fwd      map[*ssa.Function]*fwdInfo
 	phiEnv   map[*ssa.Phi]ssa.Value // path context while enumerating paths
 	phiBusy  map[*ssa.Phi]bool
+	memEnv   map[*ssa.Alloc]ssa.Value // last value stored to a multi-store local on the current path
 }
 
 func loadWorld(repo string, bc BuildConfig, overlay map[string][]byte) (*World, error) {
